@@ -39,11 +39,14 @@ OLD_SIZE = 5000
 # exists, the script's own status / signal}; if there is any fault the command fails with one of those statuses and
 # the target stays as it was; otherwise the target becomes $3 (even when empty) if $3 exists, else stdout if
 # non-empty, else it is removed.
-O_, F_, W_, E_ = ("none", "data"), ("none", "empty", "data", "deleted", "append", "dir", "link"), ("none", "new", "old"), ("0", "5", "kill9", "killTERM")
+O_, F_, W_, E_ = ("none", "data"), ("none", "empty", "data", "deleted", "append", "dir", "link", "hardlink"), ("none", "new", "old"), ("0", "5", "kill9", "killTERM")
 # f=dir: the script makes $3 a DIRECTORY (and then fails): only combined with o=none, w=none, e=5 -- the failure has to be
 # reported with the script's status and the directory removed like any other temporary output.
 # f=link: the script makes $3 a symbolic link whose pointee does not exist (a dangling link is still "$3 exists": it is
 # installed as the target, and together with stdout it is the 207 fault); combined with w=none and e in {0, 5}.
+# f=hardlink: the script makes $3 a hard link of the existing target (`ln "$1" "$3"`; without a previous target it writes $3
+# normally): the "new" output is the old file under a second name -- rename(2) of two names of one inode does nothing, so the
+# temporary name has to go some other way.  Combined with o=none, w=none, e=0 and the prior state "generated".
 # f=append: the script builds $3 with `>>` (legitimate: redo promises that $3 does not exist when the script starts).  It
 # differs from f=data only when a temporary file is lying around from an earlier, killed build: the prior states
 # "stale-tmp" (never built) and "generated+stale-tmp" put one there.
@@ -71,6 +74,8 @@ def make_behaviour(o, f, w, e):
         L.append(src + ' > "$3/inside"')
     elif f == "link":
         L.append('ln -s no-such-file "$3"')
+    elif f == "hardlink":
+        L.append('if [ -e "$1" ]; then ln "$1" "$3"; else ' + src + ' > "$3"; fi')
     elif f == "deleted":
         L.append(src + ' > "$3"')
         L.append('rm -f "$3"')
@@ -105,13 +110,16 @@ def make_behaviour(o, f, w, e):
         return "\n".join(L), ("ok-new", [0], "empty")
     if f == "link":
         return "\n".join(L), ("ok-new", [0], "link")
+    if f == "hardlink":
+        return "\n".join(L), ("ok-new", [0], "old")     # the complete new target is the old bytes again
     if f in ("data", "append") or o == "data":
         return "\n".join(L), ("ok-new", [0], "new")
     return "\n".join(L), ("ok-absent", [0], None)
 
 
 BEHAVIOURS = {behaviour_name(o, f, w, e): make_behaviour(o, f, w, e) for o in O_ for f in F_ for w in W_ for e in E_
-              if (f != "dir" or (o, w, e) == ("none", "none", "5")) and (f != "link" or (w == "none" and e in ("0", "5")))}
+              if (f != "dir" or (o, w, e) == ("none", "none", "5")) and (f != "link" or (w == "none" and e in ("0", "5")))
+              and (f != "hardlink" or (o, w, e) == ("none", "none", "0"))}
 
 
 def writes_target_itself(b):
@@ -119,7 +127,7 @@ def writes_target_itself(b):
 
 
 def has_output(b):
-    return "o=data" in b or "f=data" in b or "f=append" in b or "f=deleted" in b or "f=dir" in b or "f=link" in b or ",w=new" in b or ",w=old" in b
+    return "o=data" in b or "f=data" in b or "f=hardlink" in b or "f=append" in b or "f=deleted" in b or "f=dir" in b or "f=link" in b or ",w=new" in b or ",w=old" in b
 
 
 _W = {}
@@ -149,6 +157,8 @@ def programs(tier):
                 continue     # a leftover temporary file matters to the scripts that succeed without touching $1
             if "stale-tmp" not in prior and "f=append" in b:
                 continue     # without a leftover file f=append is f=data
+            if "f=hardlink" in b and prior != "generated":
+                continue
             for size in (sizes if has_output(b) else sizes[:1]):   # behaviours without payload output: one size only
                 out.append({"behaviour": b, "size": size, "prior": prior})
     return out
@@ -187,15 +197,19 @@ def run_program(prog):
             new = b""          # the script leaves an empty $3: that is the complete new target
         if newkind == "link":
             new = b"L:no-such-file"    # the script leaves a dangling symbolic link: that link is the new target
+        if newkind == "old":
+            new = pattern(OLD_SIZE, "o")   # the script re-publishes the previous target
         (p / "payload.old").write_bytes(old)
         env = common.base_env(_W["bindir"], home)
         target = p / "t"
         if prior.startswith("generated"):
             (p / "t.do").write_text("cat payload.old\n")
             r = e3.run_session(["redo", "--no-log", "t"], p, env, root, "prior", timeout=60)
-            if r["rc"] != 0 or _state(target, old, new) != "old":
+            if r["rc"] != 0 or target.read_bytes() != old:
                 raise MachineryError("could not produce the prior generated target: " + r["err"][-300:])
         prior_state = "old" if prior.startswith("generated") else "absent"
+        if newkind == "old" and prior_state == "old":
+            prior_state = "new"       # the previous target and the complete new one are the same bytes
         if prior == "directory":
             target.mkdir()
             (target / "keep").write_text("the user's\n")
